@@ -10,6 +10,7 @@
     Scope: stacks without per-layer filters on a root collector other than `Registry` (Layered's three private flags are
     false); the harness covers Registry roots and `Filtered` differentially. *)
 From TV Require Import Forwarding.Model Forwarding.Expected Forwarding.Spec Forwarding.Proofs.
+From TV Require Import Forwarding.ReloadConc Forwarding.ProofsReloadConc.
 From Coq Require Import Permutation.
 Local Open Scope N_scope.
 
@@ -179,6 +180,51 @@ Theorem C09_F19_refuted :
   run_case gen_tables (cplug K (wrap_nest [PIdOuter] SNone)) [OHint] <> run_case gen_tables (cplug K SNone) [OHint].
 Proof. exact F19_refuted. Qed.
 Print Assumptions C09_F19_refuted.
+
+(** ** The reload wrapper while another thread is inside `Handle::modify` / `Handle::reload` *)
+(** The reload cell as an RwLock (Forwarding/ReloadConc.v): notifier threads read-lock around each callback, modifier threads
+    write-lock around their closure; micro-steps acquire / call / release; [gen_mode] = how the callbacks acquire the lock in
+    the source under check, read off the generated rows (`try_lock!(self.inner.read())` = [Blocking]; `try_read()` = [Try]).
+    For EVERY schedule, any number of threads and any programs: what a thread has got through to the wrapped value so far,
+    followed by what it still has to do, is its program, each callback delivered once and in order; a finished thread has
+    delivered its whole program; nothing is ever skipped.  (With the single-threaded theorems above: a delivered callback
+    returns the wrapped value's own answer, so the neighbours are not affected either.) *)
+Theorem C09_reload_transparent_under_concurrent_modify : forall progs sched u,
+  let s := run (cstep gen_mode) (cinit progs) sched in
+  outs u (clog s) ++ all_delivered (pending (threads s u)) = all_delivered (pending (progs u)) /\
+  (finished (threads s u) = true -> outs u (clog s) = all_delivered (pending (progs u))) /\
+  (forall e, In e (clog s) -> snd e = true).
+Proof. exact reload_transparent_under_concurrent_modify. Qed.
+Print Assumptions C09_reload_transparent_under_concurrent_modify.
+
+(** While a writer is inside, nobody holds a read guard or is in the middle of a callback (so a callback never sees a
+    half-modified value), in either mode. *)
+Theorem C09_reload_never_read_while_modified : forall mode progs sched, (forall u, fresh (progs u) = true) ->
+  let s := run (cstep mode) (cinit progs) sched in
+  forall w, wr s = Some w -> rd s = [] /\ forall u pc r, threads s u = TN pc r -> pc = NIdle.
+Proof. exact mutual_exclusion. Qed.
+Print Assumptions C09_reload_never_read_while_modified.
+
+(** Waiting is not wedging: whenever some thread is not finished, some thread can move (closures of `modify` terminate). *)
+Theorem C09_reload_blocking_makes_progress : forall progs sched, (forall u, fresh (progs u) = true) ->
+  let s := run (cstep Blocking) (cinit progs) sched in
+  forall t, finished (threads s t) = false -> exists u, cstep Blocking s u <> None.
+Proof. exact blocking_progress. Qed.
+Print Assumptions C09_reload_blocking_makes_progress.
+
+(** Non-vacuity, and why the mode matters: with `try_read` the callback made while thread 1 is inside `modify` is skipped;
+    with the blocking `read` the same schedule makes thread 0 wait and deliver afterwards. *)
+Theorem C09_reload_try_read_refuted :
+  let s := run (cstep Try) (cinit try_progs) [1; 0; 1; 1; 1]%nat in
+  finished (threads s 0%nat) = true /\ finished (threads s 1%nat) = true /\ outs 0%nat (clog s) = [(7, false)].
+Proof. exact try_skips. Qed.
+Print Assumptions C09_reload_try_read_refuted.
+
+Example C09_reload_blocking_waits :
+  let s := run (cstep Blocking) (cinit try_progs) [1; 0; 1; 1; 1; 0; 0; 0]%nat in
+  clog (run (cstep Blocking) (cinit try_progs) [1; 0; 1; 1; 1]%nat) = [] /\
+  finished (threads s 0%nat) = true /\ outs 0%nat (clog s) = [(7, true)].
+Proof. exact blocking_waits. Qed.
 
 (** Filter wrappers (Box<dyn Filter>, Arc<dyn Filter>, Some, reload), method by method through a probe layer. *)
 Theorem C09_filter_wrappers_transparent : forall K ws f ops,
